@@ -30,6 +30,7 @@
 (*              (computed independently by the harness) occurs; for        *)
 (*              legLocal: computed from the locally resolved v2 form       *)
 (*       twice  the salted form salted once more occurs                    *)
+(*       uuid   the token's UUID occurs (it is forwarded in some form)     *)
 (*       where  the places in which the secret was seen: "url", "body",    *)
 (*              "header:<lower-case name>" (leak <=> where is not empty)   *)
 (*   Refuse        no request reached R                                    *)
@@ -37,37 +38,38 @@
 (*                                                                         *)
 (* Statement clauses:                                                      *)
 (*  (a) "the token's secret is first replaced by the hex HMAC-SHA1 ...     *)
-(*      deterministic, keeps the token UUID"     OwnUnsalted: single token *)
-(*      => salted;  SaltResult = "salted" (the harness compares with its   *)
-(*      own HMAC and calls twice for determinism)                          *)
+(*      deterministic, keeps the token UUID"     OwnUnsalted: uuid =>      *)
+(*      salted;  SaltResult = "salted" (the harness compares with its own  *)
+(*      HMAC and calls twice for determinism)                              *)
 (*  (b) "never applied twice (... forwarded as it is, and the salting      *)
 (*      routine reports it as already salted unless it belongs to R)"      *)
-(*      salt*: ~twice, single => same; SaltResult saltR = "same",          *)
+(*      salt*: ~twice, uuid => same; SaltResult saltR = "same",            *)
 (*      saltX/saltH = "ErrSalted"                                          *)
 (*  (c) "The unsalted secret appears nowhere in the forwarded request"     *)
 (*      OwnUnsalted, legLocal: ~leak - for every token of the request      *)
 (*  (d) "tokens not in Arvados format are passed through unchanged"        *)
-(*      opaque: single => same                                             *)
+(*      opaque: nothing checkable (see Allowed)                            *)
 (*  (e) "legacy-format tokens are salted from their locally resolved v2    *)
 (*      form unless they belong to the remote itself"                      *)
-(*      legLocal: single => salted;  legRemote: single => same             *)
-(* Refusing to forward is always allowed (the statement speaks about what  *)
-(* is forwarded).  With two tokens in one request only the prohibitions    *)
-(* are kept (which token is used is not specified).                        *)
+(*      legLocal: uuid => salted, ~leak;  legRemote: any                   *)
+(* Refusing to forward, and forwarding a request without (some of) its     *)
+(* tokens, is always allowed: the statement speaks about the form of what  *)
+(* is forwarded ("if the token appears, then salted / unchanged").  What   *)
+(* the code is expected to forward is compared with TokenSalt.tla's table  *)
+(* by checks/C19.py and reported as drift.                                 *)
 (*                                                                         *)
 (* The waiver (ForwardX with a non-empty `waived`, used only by            *)
 (* TokenSaltTraceKF for requests to the legacy site that fall into the     *)
 (* recorded known findings KF-C19-1 / KF-C19-2) waives, for a protected    *)
 (* token (OwnUnsalted, legLocal) of index i in `waived`, exactly this:     *)
-(*   placement "form":   its secret may be seen in "body" and nowhere else *)
-(*                       (clause (c) restricted to the other places), and  *)
-(*                       a lone form token need not appear salted (it is   *)
-(*                       never found, so clauses (a)/(e) "single => salted"*)
-(*                       cannot hold)                                      *)
-(*   placement "cookie": its secret may be seen in "header:cookie" and     *)
-(*                       nowhere else; "single => salted" is NOT waived    *)
+(*   placement "form":   its secret (hence the token, hence its UUID in an *)
+(*                       unsalted token) may be seen in "body" and nowhere *)
+(*                       else                                              *)
+(*   placement "cookie": the same for "header:cookie"                      *)
 (*   any other placement, any other class: nothing is waived.              *)
 (* ~twice and every clause about the other tokens of the request stay.     *)
+(* Whatever TokenSaltTraceKF still rejects is reported as a VIOLATION      *)
+(* (checks/C19.py does not match its rejections against known findings).   *)
 (***************************************************************************)
 EXTENDS Integers, Sequences, FiniteSets
 
@@ -81,13 +83,16 @@ Salted      == {"saltR", "saltX", "saltH"}
 Legacy      == {"legLocal", "legRemote", "legUnknown"}
 Classes     == OwnUnsalted \cup Salted \cup Legacy \cup {"v2non40", "opaque"}
 
+\* The statement constrains the FORM in which a token leaves the cluster, it does not oblige anybody to
+\* forward it: a token that does not appear at all in the outgoing request is fine.  o.uuid = the token's
+\* UUID occurs in the request (for a legacy token: the UUID it resolves to locally).
 Allowed(c, o, single) ==
-    CASE c \in OwnUnsalted -> ~o.leak /\ ~o.twice /\ (single => o.salted)        \* (a) (c)
-      [] c \in Salted      -> ~o.twice /\ (single => o.same)                       \* (b)
-      [] c = "legLocal"    -> ~o.leak /\ (single => o.salted)                      \* (c) (e)
-      [] c = "legRemote"   -> single => o.same                                     \* (e)
-      [] c = "opaque"      -> single => o.same                                     \* (d)
-      [] OTHER             -> TRUE                                                 \* v2non40, legUnknown
+    CASE c \in OwnUnsalted -> ~o.leak /\ ~o.twice /\ (o.uuid => o.salted)          \* (a) (c)
+      [] c \in Salted      -> ~o.twice /\ (o.uuid => o.same)                        \* (b)
+      [] c = "legLocal"    -> ~o.leak /\ (o.uuid => o.salted)                       \* (c) (e)
+      [] OTHER             -> TRUE          \* v2non40, legUnknown; legRemote (unchanged or resolved v2 form:
+                                           \* both reach their owner R); opaque (absence allowed, and an
+                                           \* altered opaque string cannot be recognised)
 
 CInit(c) == cfg = c /\ done = "no"
 
@@ -98,9 +103,9 @@ LeakWithin(p, o) == /\ o.leak => Len(o.where) > 0
 
 \* Allowed with the waiver described in the header applied to a token placed at p
 AllowedW(c, p, o, single) ==
-    CASE c \in OwnUnsalted -> LeakWithin(p, o) /\ ~o.twice /\ ((single /\ p # "form") => o.salted)
-      [] c = "legLocal"    -> LeakWithin(p, o) /\ ((single /\ p # "form") => o.salted)
-      [] OTHER             -> Allowed(c, o, single)
+    IF c \in OwnUnsalted \cup {"legLocal"} /\ p \in {"form", "cookie"}
+    THEN LeakWithin(p, o) /\ ~o.twice
+    ELSE Allowed(c, o, single)
 
 \* waived: indices of tokens judged with AllowedW (see TokenSaltTraceKF);
 \* the contract proper is Forward(obs) = ForwardX(obs, {}).
